@@ -482,11 +482,21 @@ Definition recover_one (acc : stage * list nat * list nat) (kv : name * comp)
            (set_cmps (aremove n (cmps s1)) s1, fin, val)
        end.
 
+(* a complete, not yet validated body whose version the log (loaded into the
+   cache) knows as put away is a retransmission that was in flight when the
+   process stopped: dropped (fix "ignore duplicate in Recover") *)
+Definition recover_validate (s : stage) (o : nat) : stage :=
+  let f := obj s o in
+  let n := f_name f in
+  if (ST_FINALIZED <=? cache_state s n) && name_eqb (cache_hash s n) (f_hash f)
+  then set_cmps (aremove n (cmps s)) (set_fulls (aremove n (fulls s)) s)
+  else process (to_cache s o ST_RECEIVED) o.
+
 Definition recover (s : stage) (now : Z) : stage :=
   let '(s1, fin, val) := fold_left recover_one (cmps s) (s, [], []) in
   let s2 := build_cache s1 now (now - 86400) in
   let s3 := fold_left (fun acc o => let a := to_cache acc o ST_VALIDATED in set_fq (fq a ++ [o]) a) fin s2 in
-  fold_left (fun acc o => process (to_cache acc o ST_RECEIVED) o) val s3.
+  fold_left recover_validate val s3.
 
 Definition restart (s : stage) (now : Z) : stage := recover (crash s) now.
 
